@@ -30,6 +30,7 @@ def run(prog, chk):
     chk.decided += ["the final glyph names are unique (every name handed out by the production-name step is recorded before the next one is chosen): a duplicate name makes the saved font reload with another "
                     "glyph list, or merges two glyphs' CFF charstrings (R04.13 = R11.3 = R03.10)"]
     chk.decided += ["OS/2.xAvgCharWidth is derived from the compiled advances: fontTools' recalcAvgCharWidth is run on the font being built, after hmtx exists, and nothing stores the field by hand (R04.12)"]
+    chk.decided += ["a field that the info-override pass copies onto the finished font (the lists in InfoCompiler.setupTable_*) is computed from glyph data (cmap, glyph set, boxes) only under a guard that the font being built has such data: the override pass builds the table for an empty glyph set and would otherwise overwrite the real value with the empty one (R04.14)"]
     chk.not_decided += ["save / reload / re-save byte identity (fontTools)", "glyph bounding box arithmetic (pens)", "values recalculated by fontTools at compile time (maxp for glyf, OS/2 indices)"]
     chk.guard(r041, prog, chk)
     chk.guard(r042, prog, chk)
@@ -43,6 +44,7 @@ def run(prog, chk):
     chk.guard(r0410, prog, chk)
     chk.guard(r0411, prog, chk)
     chk.guard(r0412, prog, chk)
+    chk.guard(r0414, prog, chk)
     from .c11 import r113
     chk.guard(r113, prog, chk, "R04.13")
 
@@ -634,7 +636,99 @@ def r0412(prog, chk):
     chk.minimum("R04.12", 3)
 
 
+# ----------------------------------------------------------------------------- R04.14
+# fontTools table methods that (re)compute fields of the table they are called on
+FT_TABLE_METHODS = {
+    "recalcAvgCharWidth": {"xAvgCharWidth"},
+    "recalcUnicodeRanges": {"ulUnicodeRange1", "ulUnicodeRange2", "ulUnicodeRange3", "ulUnicodeRange4"},
+    "setUnicodeRanges": {"ulUnicodeRange1", "ulUnicodeRange2", "ulUnicodeRange3", "ulUnicodeRange4"},
+    "recalcCodePageRanges": {"ulCodePageRange1", "ulCodePageRange2"},
+    "setCodePageRanges": {"ulCodePageRange1", "ulCodePageRange2"},
+    "updateFirstAndLastCharIndex": {"usFirstCharIndex", "usLastCharIndex"},
+}
+# what the info-override compiler has none of: it is built with an empty glyph set / glyph order and never builds cmap
+GLYPH_DATA_FIELDS = {"otf", "unicodeToGlyphNameMapping", "glyphSet", "allGlyphs", "glyphOrder", "glyphBoundingBoxes", "fontBoundingBox"}
+
+
+def _glyph_data_deps(prog, fi, e, seen=None, depth=0) -> Set[str]:
+    seen = set() if seen is None else seen
+    out: Set[str] = set()
+    if depth > 6:
+        return out
+    for n in ast.walk(e):
+        if isinstance(n, ast.Attribute) and isinstance(n.value, ast.Name) and n.value.id == "self" and n.attr in GLYPH_DATA_FIELDS:
+            out.add(n.attr)
+        elif isinstance(n, ast.Name) and isinstance(n.ctx, ast.Load) and n.id != "self":
+            for d in prog.reaching(fi, n.id, n):
+                k = (n.id, id(d.binder))
+                if k in seen or d.value is None:
+                    continue
+                seen.add(k)
+                out |= _glyph_data_deps(prog, fi, d.value, seen, depth + 1)
+    return out
+
+
+def r0414(prog, chk):
+    """The info-override pass (InfoCompiler) runs the base table builders on a font with no glyphs and no cmap and copies every
+    listed field that is set onto the finished font; a listed field computed from glyph data must therefore stay unset there."""
+    ix = prog.ix
+    ic = ix.get_class("ufo2ft.infoCompiler.InfoCompiler")
+    n = 0
+    for name, m in sorted(ic.methods.items()):
+        if not name.startswith("setupTable_"):
+            continue
+        copied: Set[str] = set()
+        for c in calls_named(m, "_set_attrs"):
+            need(len(c.args) == 2 and isinstance(c.args[1], (ast.Set, ast.List, ast.Tuple)) and all(isinstance(x, ast.Constant) for x in c.args[1].elts),
+                 f"cannot interpret {m.short}: the copied field list")
+            copied |= {x.value for x in c.args[1].elts}
+        if not copied or not [c for c in calls_named(m, name) if isinstance(c.func, ast.Attribute) and T(c.func.value) == "super()"]:
+            continue
+        base = ix.get_method(BASE_OUTLINE, name, own=True)
+        funcs = [base]
+        for c in ast.walk(base.node):
+            if isinstance(c, ast.Call) and isinstance(c.func, ast.Attribute) and (isinstance(c.func.value, ast.Name) and c.func.value.id == 'self'):
+                try:
+                    g = ix.get_method(BASE_OUTLINE, c.func.attr)
+                except AnalysisError:
+                    continue
+                if g not in funcs and not g.name.startswith("setupTable_"):
+                    funcs.append(g)
+        for f in funcs:
+            sites = []  # (node, fields, value exprs)
+            for st in A.stmts_of(f.node):
+                tg = st.targets if isinstance(st, ast.Assign) else [st.target] if isinstance(st, (ast.AugAssign, ast.AnnAssign)) else []
+                for t in tg:
+                    if isinstance(t, ast.Attribute) and t.attr in copied and not (isinstance(t.value, ast.Name) and t.value.id == 'self') and getattr(st, "value", None) is not None:
+                        sites.append((st, {t.attr}, [st.value]))
+                if isinstance(st, ast.Expr) and isinstance(st.value, ast.Call) and isinstance(st.value.func, ast.Attribute):
+                    flds = FT_TABLE_METHODS.get(st.value.func.attr)
+                    if flds and flds & copied:
+                        sites.append((st, flds & copied, list(st.value.args) + [k.value for k in st.value.keywords]))
+                    elif st.value.func.attr == "setattr":
+                        pass
+                if isinstance(st, ast.Expr) and isinstance(st.value, ast.Call) and A.callee_name(st.value) == "setattr" and len(st.value.args) == 3:
+                    sites.append((st, {"<computed name>"}, [st.value.args[2]]))
+            for st, flds, vals in sites:
+                deps: Set[str] = set()
+                for v in vals:
+                    deps |= _glyph_data_deps(prog, f, v)
+                if not deps:
+                    continue
+                fs = facts(prog, f, st)
+                guarded = any(o == "in" and r == "self.otf" and l in ("'cmap'", '"cmap"') for o, l, r in fs) or \
+                    any(o in ("truthy", "isnot") and l.startswith("self.") and l.split(".")[1] in GLYPH_DATA_FIELDS - {"otf"} for o, l, r in fs)
+                n += 1
+                chk.ob("R04.14", f"{f.short}|{'/'.join(sorted(flds))} from glyph data only when there is glyph data", guarded, where(f, st), detail=f"{T(st, 70)} reads self.{', self.'.join(sorted(deps))}",
+                       message=f"{f.short}: `{T(st, 80)}` computes {', '.join(sorted(flds))} from glyph data (self.{', self.'.join(sorted(deps))}) also when the font being built has no cmap: the info-override pass "
+                               f"({m.short}) builds this table for an empty glyph set and copies every field that is set onto the finished font, so the real font's value is overwritten with the empty one")
+    chk.minimum("R04.14", 2)
+
+
 MUTANTS = [
+    M("unicode ranges always computed from the character mapping, zeroed by the info-override pass (seeded C04n)", "ufo2ft/outlineCompiler.py", "BaseOutlineCompiler.setupTable_OS2",
+      "if uniRanges is not None:\n    os2.ulUnicodeRange1 = intListToNum(uniRanges, 0, 32)\n    os2.ulUnicodeRange2 = intListToNum(uniRanges, 32, 32)\n    os2.ulUnicodeRange3 = intListToNum(uniRanges, 64, 32)\n    os2.ulUnicodeRange4 = intListToNum(uniRanges, 96, 32)\nelif 'cmap' in self.otf:\n    os2.recalcUnicodeRanges(self.otf)",
+      "if uniRanges is not None:\n    os2.ulUnicodeRange1 = intListToNum(uniRanges, 0, 32)\n    os2.ulUnicodeRange2 = intListToNum(uniRanges, 32, 32)\n    os2.ulUnicodeRange3 = intListToNum(uniRanges, 64, 32)\n    os2.ulUnicodeRange4 = intListToNum(uniRanges, 96, 32)\nelse:\n    os2.setUnicodeRanges(intersectUnicodeRanges(self.unicodeToGlyphNameMapping.keys()))", rule="R04.14"),
     M("suffixed production names are not recorded as taken (seeded C04m)", "ufo2ft/postProcessor.py", "PostProcessor._unique_name",
       "if name in seen:\n    n = seen[name]\n    while name + '.%d' % n in seen:\n        n += 1\n    seen[name] = n + 1\n    name += '.%d' % n\nseen[name] = 1\nreturn name",
       "if name not in seen:\n    seen[name] = 1\n    return name\nn = seen[name]\nwhile name + '.%d' % n in seen:\n    n += 1\nseen[name] = n + 1\nreturn name + '.%d' % n", rule="R04.13"),
